@@ -32,4 +32,16 @@ def cmdSid (args : List String) : String :=
     | _, _, _, _ => "bad-op"
   | _ => "bad-op"
 
+/-- `sweep k cur <table in walking order> <ids whose owner retries>` : `stop_all_streams()` -/
+def cmdSweep (args : List String) : String :=
+  match args with
+  | [k, cur, act, retry] =>
+    match k.toNat?, cur.toNat?, parseNatList act, parseNatList retry with
+    | some k, some cur, some act, some retry =>
+      let r := StreamId.sweep (fun i => retry.contains i) { k := k, cur := cur, active := act }
+      let actF := (r.1.active.toArray.qsort (· < ·)).toList
+      s!"new={showNatList r.2} | cur={r.1.cur} active={showNatList actF}"
+    | _, _, _, _ => "bad-op"
+  | _ => "bad-op"
+
 end Driver
